@@ -432,7 +432,7 @@ func ruleC15ValidateAll(c *Ctx) {
 	c.R.Check(okVal, rule, "decoded-value-evaluated", c.pos(evalCall), "the value evaluated is the decoded default", "the value evaluated is not the decoded default")
 	// nothing but the absence of a default can skip the evaluation
 	var extra []string
-	for _, g := range guardsOf(evalCall) {
+	for _, g := range controlGuards(evalCall) {
 		if c.mentionsField(g.Cond, "Schema.Default", 4) || isErrNilTest(g.Cond) {
 			continue
 		}
